@@ -383,6 +383,23 @@ def colliding_names():
     return [b'a', b'b']
 
 
+def prefix_twin_histories():
+    """a name and an extension of it with the same cached hash: names are equal only as whole strings"""
+    from harrcommon import murmur3_32
+    from c05 import PREFIX_TWINS
+    hists = []
+    for short, long_ in PREFIX_TWINS:
+        if murmur3_32(short) != murmur3_32(long_):
+            continue
+        for fl in (0, 1, 2, 3, 4, 8, 12):
+            for a, b in ((short, long_), (long_, short)):
+                ops = ['putstr %s 31' % hexs(a), 'getstr %s 1' % hexs(b), 'getmulti %s 0' % hexs(b), 'remove %s' % hexs(b), 'size',
+                       'putstr %s 32' % hexs(b), 'size', 'getstr %s 0' % hexs(a), 'getstr %s 0' % hexs(b), 'getmulti %s 1' % hexs(a),
+                       'walk %s 5 - 0' % hexs(a), 'putstr %s 33' % hexs(a), 'size', 'walk N 5 - 0', 'remove %s' % hexs(a), 'size', 'getstr %s 1' % hexs(b)]
+                hists.append((fl, ops))
+    return hists
+
+
 def sort_histories(rng, quick):
     hists = []
     col = colliding_names()
@@ -453,6 +470,7 @@ def run(ctx, replay=None):
             hists.append((fl, gen_history(rng, 120 if quick else 250, names, mixes[mixname], safe)))
     hists += directed(rng, quick)
     hists += sort_histories(rng, quick)
+    hists += prefix_twin_histories()
     # large tables, all option sets over the run
     for i in range(2 if quick else 16):
         fl = rng.randrange(16)
